@@ -1,8 +1,7 @@
 (* C06 — sample-set evaluation agrees with evaluating each sample alone.
-   Proved here: the component facts about the compressed representation.  The composite statement
-   (get k of the evaluated sample set = single evaluation) is checked by the runner on every case
-   against the model (clause "MODEL:") and is listed as planned. *)
-Require Import Ommx.Num Ommx.Poly Ommx.Msg Ommx.Eval Ommx.Tree Ommx.Inst Ommx.Samples Ommx.SamplesProofs.
+   Proved here: the composite statement (objective, constraints, flags, variable definitions;
+   variable values) and the component facts about the compressed representation. *)
+Require Import Ommx.Num Ommx.Poly Ommx.Msg Ommx.Eval Ommx.Tree Ommx.Inst Ommx.Samples Ommx.SamplesProofs Ommx.SamplesCompose Ommx.SamplesState.
 From Coq Require Import String.
 Close Scope string_scope. Open Scope list_scope. Open Scope Qc_scope.
 
@@ -18,6 +17,52 @@ Print Assumptions C06_map_get_partial.
 Theorem C06_grouping_partial : forall l, NoDup (map fst l) -> forall k, sv_get (group l) k = alookup k l.
 Proof. exact sv_get_group. Qed.
 Print Assumptions C06_grouping_partial.
+
+
+(* for every sample id k of a sample collection with distinct ids (any partition into entries),
+   reading k out of the evaluated sample set yields the objective, the per-constraint records (id,
+   equality kind, value, metadata, removal reason; active then removed, in order), both feasibility
+   flags and the variable definitions of evaluating the state stored for k alone (the variable
+   values: C06_get_state below) *)
+Theorem C06_get_evaluate_samples : forall S k st, NoDup (samples_ids S) -> samples_state S k = Some st ->
+  forall I ss m1 m2, inst_eval_samples I S = Some ss -> ss_get ss k = Some m1 -> inst_eval I st = Some m2 ->
+  so_objective m1 = so_objective m2 /\ Forall2 same_ev (so_evaluated m1) (so_evaluated m2) /\
+  so_feasible_relaxed m1 = so_feasible_relaxed m2 /\ so_feasible m1 = so_feasible m2 /\
+  so_dvs m1 = so_dvs m2.
+Proof. exact get_evaluate_samples. Qed.
+Print Assumptions C06_get_evaluate_samples.
+
+(* ... and the returned state gives every defined variable the value the single evaluation
+   reports for it (dependent variables evaluated, vacant ones filled with the point of the bound
+   nearest to zero) and holds nothing else.  Hypothesis: no defined variable carries a substituted
+   value (evaluate inserts those before the dependency pass, evaluate_samples does not). *)
+Theorem C06_get_state : forall I S k st ss m1 m2,
+  NoDup (samples_ids S) -> samples_state S k = Some st ->
+  (forall d, In d (i_dvs I) -> dv_subst d = None) ->
+  inst_eval_samples I S = Some ss -> ss_get ss k = Some m1 -> inst_eval I st = Some m2 ->
+  forall i, sget (so_state m1) i = if mem i (map dv_id (i_dvs I)) then sget (so_state m2) i else None.
+Proof. exact get_evaluate_samples_state. Qed.
+Print Assumptions C06_get_state.
+
+(* non-vacuity: two samples sharing a state and a third one, one constraint, a vacant variable *)
+Definition ex_dv (i : N) : dvar :=
+  {| dv_id := i; dv_kind := KIND_CONTINUOUS; dv_bound := Some (Fin (qz 1), Fin (qz 4)); dv_subst := None; dv_meta := [] |}.
+Definition ex_inst : instance :=
+  {| i_sense := SENSE_MIN; i_obj := Some (FLin {| l_terms := [(1%N, qz 2)]; l_const := 1 |});
+     i_dvs := [ex_dv 1; ex_dv 2];
+     i_cs := [{| c_id := 7; c_eq := LE_ZERO; c_fn := Some (FLin {| l_terms := [(1%N, 1)]; l_const := qz (-2) |}); c_meta := [] |}];
+     i_rs := []; i_deps := []; i_params := None; i_hints := Tree.L []; i_desc := Tree.L [] |}.
+Definition ex_samples : samples := [([(1%N, qz 1)], [10; 12]%N); ([(1%N, qz 3)], [11]%N)].
+Example C06_composite_nonvacuous :
+  exists ss m1 m2, inst_eval_samples ex_inst ex_samples = Some ss /\ ss_get ss 11 = Some m1 /\
+    inst_eval ex_inst [(1%N, qz 3)] = Some m2 /\ NoDup (samples_ids ex_samples) /\
+    samples_state ex_samples 11 = Some [(1%N, qz 3)] /\
+    so_objective m1 = qz 7 /\ so_feasible m1 = false /\ sget (so_state m1) 2 = Some (qz 1).
+Proof.
+  eexists; eexists; eexists. split; [vm_compute; reflexivity|]. split; [vm_compute; reflexivity|].
+  split; [vm_compute; reflexivity|]. split; [|repeat split; vm_compute; reflexivity].
+  repeat constructor; cbn; intuition discriminate.
+Qed.
 
 Example C06_nonvacuous :
   sv_get (group [(7%N, qz 2); (3%N, qz 5); (9%N, qz 2)]) 9 = Some (qz 2) /\
